@@ -123,6 +123,10 @@ def jobs(tier):
                         out.append({"state": state, "action": action, "cfg": cfg, "K": 5 if q else 6, "retry_limit": limit})
                     continue
                 out.append({"state": state, "action": action, "cfg": cfg, "K": 6 if q else 7})
+                if state in ("resolving-offsets", "fetching", "reply-parked", "manual-commit-in-flight", "auto-commit-in-flight", "commit-in-flight-while-processing") and cfg != "nogroup":
+                    # the same with a client that reports a cancelled in-flight request the way the real KafkaClient does
+                    # (FailedPayloadsError carrying the cancelled payloads, not CancelledError)
+                    out.append({"state": state, "action": action, "cfg": cfg, "K": 4 if q else 5, "cancel_mode": True})
     return out
 
 
@@ -142,6 +146,8 @@ def scenario(job):
         msgs = [Message(0, 0, None, b"v%d" % i) for i in range(n)]
         w.clock = Clock()
         w.client = ContractClient(ctx, w.clock)
+        w.client.cancel_as_failed_payloads = bool(job.get("cancel_mode"))
+        w.proc_ds = []
         w.pend = None
         w.proc_calls = 0
         w.stopped_at = None  # (proc_calls, len(history)) when stop() returned
@@ -152,7 +158,7 @@ def scenario(job):
         w.async_proc = state != "inside-processor-sync"
         w.committed = []
         w.explicit_stop = False
-        ctx.sig("state=%s action=%s cfg=%s%s" % (state, action, cfg, "" if "retry_limit" not in job else " retry_limit=%d" % job["retry_limit"]))
+        ctx.sig("state=%s action=%s cfg=%s%s%s" % (state, action, cfg, "" if "retry_limit" not in job else " retry_limit=%d" % job["retry_limit"], " cancel-as-failed-payloads" if job.get("cancel_mode") else ""))
 
         def do_action():
             try:
@@ -186,6 +192,7 @@ def scenario(job):
                 do_action()
             if w.async_proc:
                 w.pend = Deferred()
+                w.proc_ds.append(w.pend)
                 return w.pend
             return None
 
@@ -235,7 +242,8 @@ def scenario(job):
         elif state == "fetching":
             pass
         elif state in ("processing-async", "reply-parked"):
-            w.client.resolve(pending("fetch"), block(1))
+            # (with a count-triggered commit of 1 a two-message reply is handed over in two sub-blocks: stop() lands in the first)
+            w.client.resolve(pending("fetch"), block(2 if (cfg == "n1" and state == "processing-async") else 1))
             fire_next_timer(w.clock)  # refetch issued while processing
             if state == "reply-parked":
                 w.client.resolve(pending("fetch"), block(1))
@@ -373,6 +381,8 @@ def scenario(job):
                     "start-deferred-fires-once-with-last-processed",
                     "start() Deferred fired %d times after stop" % len(w.res),
                 )
+                ctx.check(all(d_.called for d_ in w.proc_ds), "no-processor-result-left-pending-after-stop",
+                          "%d Deferred(s) returned by the processor are neither fired nor cancelled after stop()" % len([d_ for d_ in w.proc_ds if not d_.called]))
                 mc = getattr(w, "mc", None)
                 if mc is not None:
                     ctx.check(len(mc) == 1, "no-commit-activity-after-stop", "a commit() Deferred obtained before stop() fired %d times once the consumer had stopped" % len(mc))
